@@ -456,4 +456,22 @@ def EndPositions.get (pc : Word → Nat) (siw : Word → Nat → Nat) (rate : Na
   | .compact t => YamlPos.get pc siw rate (endFlavor pc) t c i
   | .dense v => (.val (v[i]?.filter (· > 0)), c)
 
+/-- A whole lookup history on an `OpenPositions` value (answers in order, final stored cursor). -/
+def OpenPositions.runFrom (pc : Word → Nat) (siw : Word → Nat → Nat) (rate : Nat) (o : OpenPositions) :
+    Cursor → List Nat → List Ans × Cursor
+  | c, [] => ([], c)
+  | c, i :: is =>
+    let (a, c') := o.get pc siw rate c i
+    let (as, c'') := OpenPositions.runFrom pc siw rate o c' is
+    (a :: as, c'')
+
+/-- A whole lookup history on an `EndPositions` value. -/
+def EndPositions.runFrom (pc : Word → Nat) (siw : Word → Nat → Nat) (rate : Nat) (e : EndPositions) :
+    Cursor → List Nat → List Ans × Cursor
+  | c, [] => ([], c)
+  | c, i :: is =>
+    let (a, c') := e.get pc siw rate c i
+    let (as, c'') := EndPositions.runFrom pc siw rate e c' is
+    (a :: as, c'')
+
 end SV.YamlPos
